@@ -164,7 +164,18 @@ func GenSpec(t *rapid.T, o Opts) *Spec {
 		for i, n := 0, ri(t, 1, 3, "nm"); i < n; i++ {
 			name := fmt.Sprintf("M%c", 'A'+rune(i))
 			// acyclic by construction: a macro only refers to earlier macros
-			s.Macros = append(s.Macros, &Macro{Name: name, E: genExpr(t, g, 2, macroNames)})
+			e := genExpr(t, g, 2, macroNames)
+			if len(macroNames) > 0 && ri(t, 0, 2, "nestmacro") == 0 {
+				// a macro that begins or ends with a repetition of another macro ('.' DIGIT+): the ends
+				// of its automaton fragment are the ends of a loop
+				inner := &Expr{Kind: []string{"star", "plus", "opt"}[ri(t, 0, 2, "nmk")], Kids: []*Expr{{Kind: "ref", Ref: macroNames[ri(t, 0, len(macroNames)-1, "nmi")]}}}
+				if rapid.Bool().Draw(t, "nmfirst") {
+					e = &Expr{Kind: "seq", Kids: []*Expr{inner, genLit(t, g)}}
+				} else {
+					e = &Expr{Kind: "seq", Kids: []*Expr{genLit(t, g), inner}}
+				}
+			}
+			s.Macros = append(s.Macros, &Macro{Name: name, E: e})
 			macroNames = append(macroNames, name)
 		}
 	}
@@ -190,6 +201,22 @@ func GenSpec(t *rapid.T, o Opts) *Spec {
 		nr := ri(t, 1, o.MaxRules, "nr")
 		for i := 0; i < nr; i++ {
 			e := genExpr(t, g, o.Depth, macroNames)
+			if len(macroNames) > 0 && ri(t, 0, 5, "cardmacro") == 0 {
+				// MACRO? / MACRO* / MACRO+ between two literals (or at an end of the rule)
+				card := &Expr{Kind: []string{"opt", "star", "plus"}[ri(t, 0, 2, "cmk")], Kids: []*Expr{{Kind: "ref", Ref: macroNames[ri(t, 0, len(macroNames)-1, "cmi")]}}}
+				kids := []*Expr{card}
+				if ri(t, 0, 2, "cmpre") != 0 {
+					kids = append([]*Expr{genClass(t, g)}, kids...)
+				}
+				if ri(t, 0, 2, "cmpost") == 0 {
+					kids = append(kids, genLit(t, g))
+				}
+				if len(kids) > 1 {
+					e = &Expr{Kind: "seq", Kids: kids}
+				} else {
+					e = card
+				}
+			}
 			if o.NonGreedy && ri(t, 0, 4, "ngrule") == 0 {
 				// body*? terminator
 				e = &Expr{Kind: "seq", Kids: []*Expr{{Kind: []string{"starng", "plusng"}[ri(t, 0, 1, "ngk")], Kids: []*Expr{genClass(t, g)}}, genLit(t, g)}}
